@@ -367,7 +367,7 @@ def run(ck):
     from .. import guards as _g
     _g.finished_early_return(ck, P)
     _g.prime_room(ck, P)
-    ck.floor("SIB/ref-conditions", condparity.check(ck, P, "SIB/ref-conditions", only={"deflate_fast.c:deflate_fast", "deflate_slow.c:deflate_slow", "deflate_medium.c:deflate_medium", "deflate_medium.c:emit_match", "deflate_medium.c:insert_match", "deflate_medium.c:fizzle_matches", "deflate_quick.c:deflate_quick", "deflate_rle.c:deflate_rle", "deflate_huff.c:deflate_huff", "match_tpl.h:LONGEST_MATCH", "deflate.c:flush_pending", "deflate.c:read_buf", "deflate.c:deflate", "deflate_stored.c:deflate_stored", "deflate.c:fill_window"}), 50)
+    ck.floor("SIB/ref-conditions", condparity.check(ck, P, "SIB/ref-conditions", only={"deflate.c:lm_init", "deflate.c:deflateReset", "deflate.c:deflateResetKeep", "deflate_fast.c:deflate_fast", "deflate_slow.c:deflate_slow", "deflate_medium.c:deflate_medium", "deflate_medium.c:emit_match", "deflate_medium.c:insert_match", "deflate_medium.c:fizzle_matches", "deflate_quick.c:deflate_quick", "deflate_rle.c:deflate_rle", "deflate_huff.c:deflate_huff", "match_tpl.h:LONGEST_MATCH", "deflate.c:flush_pending", "deflate.c:read_buf", "deflate.c:deflate", "deflate_stored.c:deflate_stored", "deflate.c:fill_window"}), 50)
     guards(ck, P)
     signed_offsets(ck, P)
     slide_order(ck, P)
